@@ -590,7 +590,10 @@ fn main() {
                 }
                 "wal_archive_recover" => {
                     let shard = st["shard"].as_u64().unwrap_or(0) as usize;
-                    let dir = std::path::PathBuf::from(st["dir"].as_str().unwrap_or(""));
+                    let dir = match st["dir_rel"].as_str() {
+                        Some(rel) => std::path::PathBuf::from(format!("{}/{}", root, rel)),
+                        None => std::path::PathBuf::from(st["dir"].as_str().unwrap_or("")),
+                    };
                     let rec = snel_db::engine::core::wal::wal_archive_recovery::WalArchiveRecovery::new(shard, dir);
                     let mut entries = Vec::new();
                     let mut errs = Vec::new();
